@@ -146,3 +146,27 @@ Section ArchFollow.
     let '(p', applied, d) := net_apply m no_args pol in
     (p', map (follow_one applied d) others, applied).
 End ArchFollow.
+
+(* ---- activation mutation and the Mutations object's activation selection ------------------------------ *)
+(* Mutations._permutate_activation: the candidates are a COPY of the object's activation_selection without the network's
+   current activation (list.remove: first occurrence; only when more than one candidate exists and the current one is
+   among them); the new activation is drawn from the candidates.  The selection itself (the caller's list, or the
+   default-argument list shared by all Mutations objects) is constant state of the object.  Activations are numbers. *)
+Fixpoint remove_first (x : N) (l : list N) : list N :=
+  match l with
+  | [] => []
+  | y :: r => if N.eqb x y then r else y :: remove_first x r
+  end.
+Definition act_options (sel : list N) (cur : N) : list N :=
+  if Nat.ltb 1 (length sel) && memN cur sel then remove_first cur sel else sel.
+Definition permutate (sel : list N) (cur : N) (draw : nat) : N :=
+  nth (Nat.modulo draw (length (act_options sel cur))) (act_options sel cur) cur.
+
+(* state = (selection of the Mutations object, activation of the network); one activation mutation *)
+Definition act_step (st : list N * N) (draw : nat) : list N * N := (fst st, permutate (fst st) (snd st) draw).
+Definition act_run (st : list N * N) (draws : list nat) : list N * N := fold_left act_step draws st.
+
+(* the seeded / feared variant: the candidates ARE the object's list (no copy), so removing the current activation
+   consumes the selection *)
+Definition act_step_consuming (st : list N * N) (draw : nat) : list N * N :=
+  (act_options (fst st) (snd st), permutate (fst st) (snd st) draw).
